@@ -513,9 +513,9 @@ func c08Gen(tier string, rng *rand.Rand, emit func(string)) map[string]interface
 			cfgs = append(cfgs, cfg{p, c})
 		}
 	}
-	rounds, n := 1, 300
+	rounds, n := 1, 4000
 	if thorough {
-		rounds, n = 6, 1500
+		rounds, n = 6, 20000
 	}
 	for r := 0; r < rounds; r++ {
 		for _, cf := range cfgs {
